@@ -17,7 +17,7 @@ RULE = ('Hypothesis: framing rtu / ascii / binary; garbage = 1..4 pieces out of 
         'answered) exactly once and in order, and len(framer._buffer) after every read stays <= L + that read. Frames inside '
         'the window may be lost. Non-trivial: garbage non-empty and not itself a clean valid frame for the hosted unit; '
         'distinct by SHA-1.')
-ASSUMPTIONS = ['valid frames arrive whole within a read (k frames per read), as frames on a serial line separated by silent intervals do',
+ASSUMPTIONS = ['RTU: valid frames arrive whole within a read (k frames per read), as frames separated by silent intervals do; on the delimited framings (ascii, binary) the valid traffic is also delivered in arbitrary pieces',
                'an asyncio/Twisted stream handler that closes the connection on a framing error is allowed to (C12); such cases are counted as excluded',
                'binary frames are chosen free of delimiter bytes (recorded finding KF-BINARY-FRAMER-DELIMITER-BYTES)']
 BUDGET = {'quick': 2500, 'thorough': 8000}
@@ -58,6 +58,8 @@ def _case(draw):
     garbage = b''.join(draw(st.lists(_piece(framing), min_size=1, max_size=4)))
     return {'framing': framing, 'garbage': garbage.hex(), 'gcut': draw(gens.cuts()), 'join': draw(st.booleans()),
             'nvalid': draw(st.integers(70, 110)), 'k': draw(st.integers(1, 3)),
+            # delimited framings only: the valid traffic itself arrives in arbitrary pieces (frames split across reads)
+            'vcut': draw(st.one_of(st.none(), st.none(), st.tuples(st.just('every'), st.integers(1, 23)).map(list))),
             'receiver': draw(st.sampled_from(['framer', 'framer', 'sync_serial', 'sync_serial', 'aio_tcp', 'tw_tcp']))}
 
 
@@ -87,6 +89,9 @@ def run_case(case):
     reads = [c for c in gens.apply_cuts(garbage, case['gcut']) if c]
     groups = [vf[i:i + case['k']] for i in range(0, len(vf), case['k'])]
     valid_reads = [b''.join(f for f, _ in g) for g in groups]
+    if case.get('vcut') and framing in ('ascii', 'binary'):
+        valid_reads = [c for c in gens.apply_cuts(b''.join(f for f, _ in vf), case['vcut']) if c]
+        labels.append('valid-frames-split-across-reads')
     if case['join'] and reads:
         reads[-1] = reads[-1] + valid_reads[0]
         valid_reads = valid_reads[1:]
